@@ -20,7 +20,8 @@ class BrentsRootFinder:
 
         # A zero ordinate at one end is fine: that end is an exact root (e.g. the norm of a
         # noisy trajectory hits the jump threshold exactly at a time-step boundary).
-        assert self.fa * self.fb <= 0 and (
+        # Signs are compared directly: the product of two tiny ordinates underflows to zero.
+        assert ((self.fa <= 0 <= self.fb) or (self.fb <= 0 <= self.fa)) and (
             self.fa != 0 or self.fb != 0
         ), "Function root needs to be between a and b"
 
@@ -90,7 +91,7 @@ class BrentsRootFinder:
         ), "Something went wrong"
 
         # Update interval
-        if self.fa * ordinate < 0:
+        if (self.fa < 0 < ordinate) or (ordinate < 0 < self.fa):
             self.b, self.fb = abscissa, ordinate
         else:
             self.a, self.fa = abscissa, ordinate
